@@ -659,6 +659,16 @@ theorem block_sound {Γ : Ctx} :
       obtain ⟨hs, S1⟩ := stmt_sound S (hw s List.mem_cons_self) h1
       exact ⟨S, hs, fs1, h1, ih fs1 fs' _ S1 (fun t ht => hw t (List.mem_cons_of_mem _ ht)) h⟩
 
+theorem wtBlock_of_wtStmt {Γ : Ctx} :
+    ∀ (ss : List Stmt), (∀ s ∈ ss, wtStmt Γ s) → ∀ fs, wtBlock Γ fs ss := by
+  intro ss
+  induction ss with
+  | nil => intro _ _; trivial
+  | cons s ss ih =>
+    intro hw fs
+    exact ⟨Or.inl (hw s List.mem_cons_self),
+      fun fs1 _ => ih (fun t ht => hw t (List.mem_cons_of_mem _ ht)) fs1⟩
+
 /-- blocks with variable and array-element targets -/
 theorem block_sound_arr {Γ : Ctx} :
     ∀ (ss : List Stmt) (fs fs' : List Expr) (env : Env), Situation Γ env fs →
